@@ -104,7 +104,8 @@ class CoqTree:
         return '(FD %d %d [%s])' % (self.ptr(f['ptr']), self.s(f['id']), '; '.join(ps))
 
     def group(self, g):
-        return '(G %d %s %s [%s] [%s])' % (self.s(g['id']), self.clip(g['clip']), self.mask(g['mask']),
+        styled = 'true' if (g.get('blend', 'Normal') != 'Normal' or g.get('isolate')) else 'false'
+        return '(G %d %s %s %s [%s] [%s])' % (self.s(g['id']), styled, self.clip(g['clip']), self.mask(g['mask']),
                                            '; '.join(self.filt(f) for f in g['filters']),
                                            '; '.join(self.node(n) for n in g['children']))
 
